@@ -87,7 +87,7 @@ from mashumaro.jsonschema.models import (
     JSONSchemaInstanceType,
     JSONSchemaStringFormat,
 )
-from mashumaro.types import SerializationStrategy
+from mashumaro.types import Alias, SerializationStrategy
 
 try:
     from mashumaro.mixins.orjson import (
@@ -129,6 +129,11 @@ class Instance:
     @property
     def alias(self) -> Optional[str]:
         alias = self.metadata.get("alias")
+        if alias is None:
+            # Annotated[T, Alias("...")], as the (de)serializer reads it
+            for annotation in self.annotations:
+                if isinstance(annotation, Alias):
+                    alias = annotation.name
         if alias is None:
             aliases_config = self.get_owner_config().aliases
             alias = aliases_config.get(self.name)  # type: ignore
